@@ -31,7 +31,14 @@ def response_payload(rng, pname, rid, outcome):
         if not two:
             d['result'] = None
     else:   # malformed response whose id is recoverable
-        if two:
+        variant = outcome[1] if len(outcome) > 1 else 0
+        if pname == 'v2' and variant == 1:      # well-formed but for the missing version member
+            d.pop('jsonrpc')
+            d['result'] = 5
+        elif pname == 'v2' and variant == 2:    # wrong version
+            d['jsonrpc'] = '1.0'
+            d['result'] = 5
+        elif two:
             d['result'] = 1
             d['error'] = {'code': 1, 'message': 'x'}
         else:
@@ -95,7 +102,7 @@ class C01(Prop):
                     if style < 0.62 and outstanding:
                         key = rng.choice(list(outstanding))
                         if outstanding[key] == 'one':
-                            outcome = rng.choice([['res', rng.choice([None, 5, 'ok', [1]])], ['err', 7, 'bad'], ['malformed']])
+                            outcome = rng.choice([['res', rng.choice([None, 5, 'ok', [1]])], ['err', 7, 'bad'], ['malformed', rng.randrange(3)]])
                             payload = response_payload(rng, pname, enc_id(rng, key[0]), outcome)
                             ops.append(['receive', list(json.dumps(payload).encode())])
                             expects.append(['complete', list(key), [outcome]])
